@@ -25,6 +25,9 @@ def strategy(tp):
         "origin": st.sampled_from(["ok", "ok", "abort-fin", "abort-rst", "stall", "stall-mid", "no-response"]),
         "origin_at": st.integers(0, 999),
         "post_len": st.sampled_from([0, 10, 5000, 100000]),
+        # on workers with a disk cache: make the STORED object (swap metadata + reply head + body) end exactly at,
+        # just below or just above a multiple of the 4 KB disk I/O page ([pages, delta]); None = use body_len as is
+        "page_align": st.one_of(st.none(), st.none(), st.tuples(st.integers(1, 4), st.sampled_from([-1, 0, 0, 0, 1])).map(list)),
         "post_sent": st.one_of(st.just(1000), st.just(1000), st.integers(0, 1000)),                 # permille of the request body actually sent
     })
     return st.fixed_dictionaries({
@@ -85,7 +88,12 @@ def settle(env, target=None, deadline_s=25):
 
 
 def setup(ctx):
-    env = ProxyEnv(ctx, conf=CONF, cache_mem="32 MB")
+    # odd workers add a ufs cache_dir, so descriptors of swap-out/swap-in files are part of the count
+    disk = (ctx.worker % 2 == 1)
+    env = ProxyEnv(ctx, conf=CONF + ("maximum_object_size 2 MB\n" if disk else ""), cache_mem="32 MB",
+                   cache_dirs=["ufs {run}/ufs 50 4 4"] if disk else [])
+    env.disk = disk
+    env.stored_overhead = None
     from vlib.e2e.squidproc import free_port
     env.dead_port = free_port()      # nothing listens there: upstream connection attempts are refused
     _baseline(env)
@@ -98,6 +106,22 @@ def _baseline(env):
     env.origin.script(p, {"status": 200, "headers": [["Cache-Control", "max-age=60"]], "body_tag": p, "body_len": 100})
     fetch(env, p)
     fetch(env, p)
+    if getattr(env, "disk", False):
+        # learn how many bytes precede the body in a swap file (swap metadata + stored reply head), from the file itself
+        q = "/" + env.ns()
+        env.origin.script(q, {"status": 200, "framing": "length", "headers": [["Cache-Control", "max-age=600"]], "body_tag": q, "body_len": 1000})
+        fetch(env, q)
+        deadline = time.time() + 10
+        env.stored_overhead = None
+        while time.time() < deadline and env.stored_overhead is None:
+            for base, _dirs, names in os.walk(os.path.join(env.squid.run, "ufs")):
+                for n in names:
+                    if n.startswith("swap.state"):
+                        continue
+                    sz = os.path.getsize(os.path.join(base, n))
+                    if 1000 < sz < 3000:
+                        env.stored_overhead = sz - 1000 - len(q)   # the swap metadata contains the URL: keep the URL-independent part
+            time.sleep(0.1)
     env.origin.close_conns()
     env.baseline = settle(env, None)
     env.baseline_pid = env.squid.proc.pid
@@ -110,7 +134,13 @@ def teardown(env):
 def run_txn(env, ns, t, idx, socks):
     path = "/%s/u%d" % (ns, t["shared_url"]) if t["cacheable"] else "/%s/t%d" % (ns, idx)
     ev = "hold-%s-%d" % (ns, idx)
-    beh = {"status": 200, "framing": t["framing"], "body_tag": path, "body_len": t["body_len"],
+    body_len = t["body_len"]
+    pa = t.get("page_align")
+    if pa and t["cacheable"] and getattr(env, "disk", False) and env.stored_overhead:
+        # the reply head stored for these transactions has the same length as the probe's (same header set), except
+        # for the number of digits of Content-Length / the framing field: small deltas are covered by "delta"
+        body_len = max(1, pa[0] * 4096 - (env.stored_overhead + len(path)) + pa[1])
+    beh = {"status": 200, "framing": "length" if body_len != t["body_len"] else t["framing"], "body_tag": path, "body_len": body_len,
            "headers": [["Cache-Control", "max-age=600" if t["cacheable"] else "no-store"]], "hold_timeout": 30}
     from vlib.e2e import origin as om
     head, enc = om.serialize_response(beh, env.clock)
